@@ -75,6 +75,9 @@ def run_case(ctx, S, a, b, m, tag, reuse=None):
         else:
             s = S.LinearScale().domain([a, b])
         _REUSE["scale"] = s
+        if hash((a, b)) % 4 == 0:
+            s.range([0, [100, 960, 2000, 10000, -3000][hash((b, a)) % 5]])  # the output range has no say in ticks or formats
+            ctx.path("with-an-output-range")
         if reuse == "float-count" and m is not None:
             m = float(m)  # a count given as a float with an integral value is the same count
             ctx.path("float-count")
